@@ -549,8 +549,8 @@ class PODReader(Reader):
         LOG.debug("clock drift adjustment took %s", str(toc - tic))
 
     def _get_lonlat_from_file(self):
-        lats = self.scans["earth_location"]["lats"] / np.float32(128.0)
-        lons = self.scans["earth_location"]["lons"] / np.float32(128.0)
+        lats = self.scans["earth_location"]["lats"] / np.float64(128.0)
+        lons = self.scans["earth_location"]["lons"] / np.float64(128.0)
         return lons, lats
 
     def get_telemetry(self):
